@@ -133,6 +133,7 @@ func TestC02Manager(t *testing.T) {
 
 // TestC01ManagerFaults — the ledger total survives a store fault at any balance write of a keep-alive.
 func TestC01ManagerFaults(t *testing.T) {
+	defer vt.Watch("TestC01ManagerFaults", 120*time.Second)()
 	rec := vt.For("C01")
 	rec.Rule("fault injection at manager level: one keep-alive (1-6 peers, wallets shared between client and peers, prices to 2^130) with a single injected failure at the k-th balance write, k drawn over every write position, memory/badger; oracle: Stats.TotalCredit is unchanged whether the keep-alive reports success or failure, and a failed keep-alive moved nothing; non-trivial = fault hit with >=2 peers; distinct by (#peers, links, fault index, outcome)")
 	rapid.Check(t, func(rt *rapid.T) {
@@ -316,6 +317,7 @@ func mgrCaseRun(rt *rapid.T, rec *vt.Rec, alwaysFault bool) {
 // peer that stays active is credited in total more than full-k and at most
 // full = floor(T*price/interval); no stretch of time is charged twice.
 func TestC02Slicing(t *testing.T) {
+	defer vt.Watch("TestC02Slicing", 120*time.Second)()
 	rec := vt.For("C02")
 	rec.Rule("slicing (metamorphic, pool level, virtual time): one client with two hosts that keep checking in every 30s; the span T (1s..10min) is cut into k client keep-alives at generated instants (gaps <= 60s); oracle: each host's total credit is in (floor(T*p/I)-k, floor(T*p/I)] and the client is debited exactly the sum; non-trivial = k>=2 and a non-zero total; distinct by (T, cuts, price, interval)")
 	rapid.Check(t, func(rt *rapid.T) {
@@ -433,6 +435,7 @@ func TestC02Slicing(t *testing.T) {
 // TestC02Interleaved — two or three keep-alives interleaved at every store call still charge exactly what a
 // one-at-a-time execution charges (the manager keeps no per-update state that another update could disturb).
 func TestC02Interleaved(t *testing.T) {
+	defer vt.Watch("TestC02Interleaved", 120*time.Second)()
 	rec := vt.For("C02")
 	rec.Rule("interleaving (harness-owned scheduler): keep-alives of two light clients with different elapsed times (and optionally of a host) that bill the same hosts are interleaved at every store call by rapid draws, on memory/badger, prices 1..777777; oracle: all balances afterwards equal those of some one-at-a-time order (exact serial executions on an identical pool), i.e. each client is debited exactly its own elapsed x price per peer; non-trivial = the schedule interleaves two updates; distinct by config + schedule")
 	rapid.Check(t, func(rt *rapid.T) {
